@@ -198,8 +198,13 @@ func (g *lexGen) number() lex {
 		return lex{tokenizers.Integer, sign + g.digits(1)}
 	}
 	mant := g.digits(1)
-	if r.Bool() {
+	switch r.Intn(4) { // every shape of mantissa can carry an exponent: 12, 12.5, .5, 12.
+	case 0:
 		mant += "." + g.digits(1)
+	case 1:
+		mant = "." + g.digits(1)
+	case 2:
+		mant += "."
 	}
 	e := mon.Pick(r, []string{"e", "E", "e-", "E-", "e+", "E+"})
 	return lex{tokenizers.Float, mant + e + g.digits(1)}
